@@ -383,6 +383,10 @@ def container_ops(self_move=False, node_forms=True):
     meta = st.one_of(attach_ops(), attach_ops(), attach_ops(), detach, detach)
     bnd = st.one_of(st.just(("commit",)), st.just(("commit",)), st.just(("reopen",)), st.tuples(st.just("purge"), st.integers(0, 8)),
                     st.tuples(st.just("purge_parent"), st.integers(0, 8)))
+    nopatch = st.integers(0, len(POOL) - 1).flatmap(lambda i: st.tuples(
+        st.just("nopatch"), ctgt, st.just(i), G.model_recipe(pool_class(i)[3], 1, dates="date", objects=False),
+        st.sampled_from(["attach", "attach", "attach", "detach", "set", "setattr"])))
+    bnd = st.one_of(bnd, bnd, bnd, nopatch, nopatch, st.just(("detach_all",)))
     extra = [st.tuples(st.just("selfmove"), ctgt)] if self_move else []
     cpmv = st.one_of(
         st.tuples(st.just("mcopy"), cref, cref, dpath, st.booleans(), st.booleans(),
@@ -653,6 +657,58 @@ class CSession:
             if self.run_all(lambda ti, t: t.mc.copy(src_abs, dst_abs, without_meta=True), fm, "copy", dict(src=src_abs, dst=dst_abs, without_meta=True)):
                 self.classes.add("group_copy_without_meta")
                 self.classes.add("copy_without_meta")
+        elif kind == "detach_all":
+            # same session, no reopen: remove every metadata object, one by one (the TOC must end up empty and clean)
+            for path in sorted(self.model.meta):
+                for name in sorted(self.model.meta.get(path, {})):
+                    def fm(model, path=path, name=name):
+                        del model.meta[path][name]
+                        if not model.meta[path]:
+                            del model.meta[path]
+
+                    self.run_all(lambda ti, t, path=path, name=name: self._node(t.mc, path).meta.__delitem__(name), fm, "detach",
+                                 dict(path=path, schema=name, detach_all=True))
+                    if self.after_step:
+                        self.after_step(self, ["detach"])
+            self.classes.add("all_metadata_removed")
+            self.classes.add("last_object_of_schema_removed")
+        elif kind == "nopatch":
+            # IH5 drivers only: between commit_patch() and create_patch() nothing is writable; a mutating call in
+            # that window is refused, the caller carries on with a new patch (failed operation, state unchanged)
+            _, tgt, pi, recipe, sub = op
+            path = self._node_target(tgt, prefer_meta=(sub == "detach"))
+            key, name, ver, cls = pool_class(pi)
+            if sub == "attach" and name in m.meta.get(path, {}):
+                free = [q for q in range(len(POOL)) if pool_class(q)[1] not in m.meta.get(path, {})]
+                if free:
+                    key, name, ver, cls = pool_class(free[0])
+            present = sorted(m.meta.get(path, {}))
+            for t in self.targets:
+                if t.driver == "h5":
+                    continue
+                t.raw.commit_patch()
+                err = None
+                try:
+                    try:
+                        node = self._node(t.mc, path)
+                        if sub == "attach":
+                            node.meta[cls] = G.realize(recipe)
+                        elif sub == "detach":
+                            del node.meta[present[0] if present else name]
+                        elif sub == "set":
+                            t.mc["n1"] = 1
+                        else:
+                            node.attrs["k"] = 1
+                    except Exception as e:  # noqa: BLE001
+                        err = e
+                finally:
+                    t.raw.create_patch()
+                if err is None:
+                    raise Violation(f"{self.sig}:op-succeeds:without-open-patch:{sub}",
+                                    f"step {self.pos}: {sub} at {path} on {t.driver} between commit_patch and create_patch succeeded",
+                                    "refused (nothing is writable)")
+                self.classes.add("refused_without_open_patch")
+            self.steps.append((kind, False))
         elif kind == "selfmove":
             p = self._node_target(op[1])
             if p == "/":
